@@ -83,7 +83,7 @@ func collectFuncs(ss []gast.Stmt, into map[string]gast.FuncDef) {
 }
 
 func (in *Interp) fail(format string, a ...interface{}) { panic(rtErr{fmt.Sprintf(format, a...)}) }
-func (in *Interp) dc(why string)                          { panic(dontCare{why}) }
+func (in *Interp) dc(why string)                        { panic(dontCare{why}) }
 
 func (in *Interp) tick() {
 	in.steps++
